@@ -760,6 +760,7 @@ func cmpUniverse() []*V {
 	add(VArr(TInt(0), i(1), i(2)))
 	add(VAnys(VStrMap(SKV("a", i(1)))))
 	add(VStrMap(SKV("a", VFlt(1, 1))))
+	add(VStrMap(SKV("a", VNil()), SKV("b", i(1)))) // a key whose value is nil is still a key (contains), and still equal to itself
 	add(VStrMap(SKV("a", VAnys(i(1)))))
 	add(VStrMap(SKV("b", i(1))))
 	add(VMap(TStr, TAny))
